@@ -19,7 +19,7 @@ func init() {
 		{Name: "memory emptiness ignores the address type", File: "internal/wat/printer/printer_empty.go", Old: "if zero := new(ast.Memory); *zero == *p.m.Memory {", New: "if zero := (ast.Memory{AddrType: p.m.Memory.AddrType}); zero == *p.m.Memory {", Expect: "empty-predicate-whole-value"},
 		{Name: "inline func exports merged before inline global exports", File: "internal/wat/parser/module.go", Old: "\tfor _, g := range p.module.Globals {\n\t\tif g.ExportName != \"\" {\n\t\t\tp.module.Exports = append(p.module.Exports, &ast.ExportSpec{\n\t\t\t\tName:      g.ExportName,\n\t\t\t\tKind:      token.GLOBAL,\n\t\t\t\tGlobalIdx: g.Name,\n\t\t\t})\n\t\t}\n\t}\n", New: "", Expect: "inline-export-merge-order"},
 		{Name: "printer drops the memory.init data index", File: "internal/wat/printer/printer_funcs.go", Old: "fmt.Fprintln(w, tok, ins.(ast.Ins_MemoryInit).DataIdx)", New: "fmt.Fprintln(w, tok)", Expect: "ins-field-coverage :: memory.init"},
-		{Name: "printer elides align=1 for i64.store16 (legal, not the default)", File: "internal/wat/printer/printer_funcs.go", Old: "insStore := ins.(ast.Ins_I64Store16)\n\t\tif x := insStore.Offset; x != 0 {\n\t\t\tfmt.Fprintf(w, \" offset=%d\", x)\n\t\t}\n\t\tif x := insStore.Align; x != 2 {", New: "insStore := ins.(ast.Ins_I64Store16)\n\t\tif x := insStore.Offset; x != 0 {\n\t\t\tfmt.Fprintf(w, \" offset=%d\", x)\n\t\t}\n\t\tif x := insStore.Align; x != 1 {", Expect: "elision-default :: i64.store16"},
+		{Name: "printer elides align=1 for i64.store16 (legal, not the default)", File: "internal/wat/printer/printer_funcs.go", Old: "insLoad := ins.(ast.Ins_I64Store16)\n\t\tif x := insLoad.Offset; x != 0 {\n\t\t\tfmt.Fprintf(w, \" offset=%d\", x)\n\t\t}\n\t\tif x := insLoad.Align; x != 2 {", New: "insLoad := ins.(ast.Ins_I64Store16)\n\t\tif x := insLoad.Offset; x != 0 {\n\t\t\tfmt.Fprintf(w, \" offset=%d\", x)\n\t\t}\n\t\tif x := insLoad.Align; x != 1 {", Expect: "elision-default :: i64.store16"},
 		{Name: "printer stops printing else branches", File: "internal/wat/printer/printer_funcs.go", Old: "\t\t\tfor _, x := range insIf.Else {\n\t\t\t\twatPrinter_printFuncs_body_ins(w, indent, x, blkLevel+1)\n\t\t\t}\n", New: "", Expect: "nested-body :: if"},
 		{Name: "printer prints a different mnemonic", File: "internal/wat/printer/printer_funcs.go", Old: "case token.INS_I64_GE_U:\n\t\tfmt.Fprintln(w, tok)", New: "case token.INS_I64_GE_U:\n\t\tfmt.Fprintln(w, token.INS_I64_GE_S)", Expect: "mnemonic :: i64.ge_u"},
 		{Name: "printer forgets table max size", File: "internal/wat/printer/printer_table.go", Old: "\tif p.m.Table.MaxSize > 0 {\n\t\tfmt.Fprint(p.w, \" \", p.m.Table.MaxSize)\n\t}\n", New: "", Expect: "module-field-coverage :: Table.MaxSize"},
@@ -29,7 +29,7 @@ func init() {
 		{Name: "global name guarded by the wrong field", File: "internal/wat/printer/printer_globals.go", Old: "if g.Name != \"\" {", New: "if g.ExportName != \"\" {", Expect: "optional-name-guarded :: watPrinter.printGlobals"},
 		{Name: "data segment name glued to the keyword", File: "internal/wat/printer/printer_data.go", Old: "fmt.Fprint(p.w, \" \", watPrinter_identOrIndex(d.Name))", New: "fmt.Fprint(p.w, watPrinter_identOrIndex(d.Name))", Expect: "token-separation :: watPrinter.printData"},
 		{Name: "global type glued to the keyword", File: "internal/wat/printer/printer_globals.go", Old: "fmt.Fprint(p.w, \" \", g.Type)", New: "fmt.Fprint(p.w, g.Type)", Expect: "token-separation :: watPrinter.printGlobals"},
-		{Name: "section printer not called",File: "internal/wat/printer/printer.go", Old: "\tif err := p.printElem(); err != nil {\n\t\treturn err\n\t}\n", New: "", Expect: "section-called"},
+		{Name: "section printer not called", File: "internal/wat/printer/printer.go", Old: "\tif err := p.printElem(); err != nil {\n\t\treturn err\n\t}\n", New: "", Expect: "section-called"},
 	}})
 }
 
